@@ -278,6 +278,7 @@ func writers(c *rt.Ctx) {
 		c.Eval(rt.Digest("cli", hist), true)
 	})
 	importWriters(c)
+	formatWriters(c)
 }
 
 // importWriters: `atlas migrate import` writes a whole directory; it must leave it valid whatever the
@@ -344,6 +345,105 @@ func importWriters(c *rt.Ctx) {
 		}
 		if rc, out := run("migrate", "validate", "--dir", "file://"+dst); rc != 0 {
 			c.Violation("cli-writer|invalid-after|migrate-import", "atlas migrate validate rejects the imported directory: "+out, map[string]any{"format": cs.format, "files": cs.files}, nil)
+		}
+	})
+}
+
+// formatWriters: `atlas migrate hash` on a directory in a third-party format — the format given by
+// ?format= on the URL, by the --dir-format flag or by the env's migration.format — must leave a
+// directory that `atlas migrate validate` accepts whichever of the three ways names the same format,
+// also after `atlas migrate new` added a file. The formats differ in which files belong to the
+// directory (*.down.sql, U* files), so hashing and validating must agree on the file set.
+func formatWriters(c *rt.Ctx) {
+	type src struct {
+		format string
+		files  map[string]string
+	}
+	up := func(n int) string { return fmt.Sprintf("CREATE TABLE t%d (id int);\n", n) }
+	srcs := []src{
+		{"golang-migrate", map[string]string{"1_a.up.sql": up(1), "1_a.down.sql": "DROP TABLE t1;\n", "2_b.up.sql": up(2), "2_b.down.sql": "DROP TABLE t2;\n"}},
+		{"golang-migrate", map[string]string{"1_init.up.sql": up(1), "1_init.down.sql": "DROP TABLE t1;\n"}},
+		{"flyway", map[string]string{"V1__a.sql": up(1), "U1__a.sql": "DROP TABLE t1;\n", "V2__b.sql": up(2), "R__views.sql": "CREATE TABLE r (id int);\n"}},
+		{"flyway", map[string]string{"V1__a.sql": up(1), "B2__base.sql": up(1) + up(2), "V3__c.sql": up(3)}},
+		{"goose", map[string]string{"1_a.sql": "-- +goose Up\n" + up(1) + "-- +goose Down\nDROP TABLE t1;\n", "2_b.sql": "-- +goose Up\n" + up(2)}},
+		{"dbmate", map[string]string{"1_a.sql": "-- migrate:up\n" + up(1) + "-- migrate:down\nDROP TABLE t1;\n"}},
+		{"liquibase", map[string]string{"1_a.sql": "--liquibase formatted sql\n--changeset a:1\n" + up(1)}},
+		{"atlas", map[string]string{"1_a.sql": up(1), "2_b.sql": up(2)}},
+	}
+	ways := []string{"url", "flag", "env"}
+	type cs struct {
+		s   src
+		way string
+	}
+	var cases []cs
+	for _, s := range srcs {
+		for _, w := range ways {
+			cases = append(cases, cs{s, w})
+		}
+	}
+	c.Par(len(cases), func(i int, w *rt.W) {
+		k := cases[i]
+		w.Begin(map[string]any{"format-writer": k.s.format, "way": k.way, "files": k.s.files})
+		root, err := os.MkdirTemp(c.Scratch, "fmtw-")
+		if err != nil {
+			return
+		}
+		defer os.RemoveAll(root)
+		mdir := filepath.Join(root, "migrations")
+		for _, d := range []string{mdir, filepath.Join(root, "home"), filepath.Join(root, "tmp")} {
+			os.MkdirAll(d, 0o755)
+		}
+		for n, b := range k.s.files {
+			os.WriteFile(filepath.Join(mdir, n), []byte(b), 0o644)
+		}
+		os.WriteFile(filepath.Join(root, "atlas.hcl"), []byte(fmt.Sprintf("env \"e\" {\n  migration {\n    dir = \"file://%s\"\n    format = \"%s\"\n  }\n}\n", mdir, k.s.format)), 0o644)
+		run := func(args ...string) (int, string) {
+			cmd := exec.Command(c.Atlas, args...)
+			cmd.Dir = root
+			cmd.Env = []string{"HOME=" + filepath.Join(root, "home"), "TMPDIR=" + filepath.Join(root, "tmp"), "ATLAS_NO_UPDATE_NOTIFIER=1", "ATLAS_NO_UPGRADE_SUGGESTIONS=1", "PATH=/usr/bin:/bin"}
+			b, err := cmd.CombinedOutput()
+			var ee *exec.ExitError
+			if errors.As(err, &ee) {
+				return ee.ExitCode(), string(b)
+			}
+			if err != nil {
+				return -1, err.Error()
+			}
+			return 0, string(b)
+		}
+		dirArgs := func(way string) []string {
+			switch way {
+			case "url":
+				return []string{"--dir", "file://" + mdir + "?format=" + k.s.format}
+			case "flag":
+				return []string{"--dir", "file://" + mdir, "--dir-format", k.s.format}
+			}
+			return []string{"--env", "e"}
+		}
+		info := map[string]any{"format": k.s.format, "hash_way": k.way, "files": k.s.files}
+		if rc, out := run(append([]string{"migrate", "hash"}, dirArgs(k.way)...)...); rc != 0 {
+			c.Count("format-writer-refused:"+k.s.format+"/"+k.way, 1)
+			_ = out
+			return
+		}
+		c.Count("cli-writer-op:hash:"+k.s.format+"/"+k.way, 1)
+		c.Eval(rt.Digest("format-writer", k.s.format, k.way, i), true)
+		for _, vw := range ways {
+			if rc, out := run(append([]string{"migrate", "validate"}, dirArgs(vw)...)...); rc != 0 {
+				c.Violation("cli-writer|invalid-after|migrate-hash|format", fmt.Sprintf("`migrate hash` (%s directory, format given by %s) leaves a directory that `migrate validate` (format given by %s) rejects: %s", k.s.format, k.way, vw, out), info, nil)
+				return
+			}
+		}
+		if rc, _ := run(append([]string{"migrate", "new", "added"}, dirArgs(k.way)...)...); rc != 0 {
+			c.Count("format-writer-new-refused:"+k.s.format, 1)
+			return
+		}
+		c.Count("cli-writer-op:new:"+k.s.format+"/"+k.way, 1)
+		for _, vw := range ways {
+			if rc, out := run(append([]string{"migrate", "validate"}, dirArgs(vw)...)...); rc != 0 {
+				c.Violation("cli-writer|invalid-after|migrate-new|format", fmt.Sprintf("`migrate new` (%s directory, format given by %s) leaves a directory that `migrate validate` (format given by %s) rejects: %s", k.s.format, k.way, vw, out), info, nil)
+				return
+			}
 		}
 	})
 }
